@@ -110,6 +110,19 @@ def apply_fault(data, f):
         mask = ((1 << w) - 1) << shift
         whole = (whole & ~mask) | (v << shift)
         return whole.to_bytes(n, "big")
+    if k == "putbits":
+        # overwrite bits [bit, bit + len(bits01) + ones) with the given bit
+        # string followed by ``ones`` 1 bits
+        s, m = f["bit"], f.get("ones", 0)
+        w = len(f["bits01"]) + m
+        if s + w > n * 8 or w == 0:
+            return data
+        v = ((int(f["bits01"], 2) if f["bits01"] else 0) << m) | ((1 << m) - 1)
+        whole = int.from_bytes(data, "big")
+        shift = n * 8 - s - w
+        mask = ((1 << w) - 1) << shift
+        whole = (whole & ~mask) | (v << shift)
+        return whole.to_bytes(n, "big")
     if k == "addfield":
         # add a delta to a 4-byte big-endian field (used to compensate offsets)
         at = f["at"]
@@ -481,7 +494,7 @@ def gen_fault(rng, fmap, kind, data_len):
             new_end = f.start + j + c
             bits = "1" * j + code[:c]
             ops = [
-                {"k": "setbits", "bit": f.start, "n": len(bits), "val": int(bits, 2), "field": f.name},
+                {"k": "putbits", "bit": f.start, "bits01": bits, "ones": 0, "field": f.name},
                 {"k": "setbits", "bit": blk.start, "n": 8, "val": (new_end - blk.end) // unit, "field": blk.name},
             ]
             cut = (old_end - new_end) // 8
@@ -501,7 +514,7 @@ def gen_fault(rng, fmap, kind, data_len):
         if new_len >= (1 << width):
             return None
         ops = [
-            {"k": "setbits", "bit": f.start, "n": len(code), "val": int(code, 2), "field": f.name},
+            {"k": "putbits", "bit": f.start, "bits01": code, "ones": 0, "field": f.name},
             {"k": "setbits", "bit": blk.start, "n": width, "val": new_len, "field": blk.name},
         ]
         return {"k": "seq", "ops": ops, "value": v if v < (1 << 20) else "huge", "cut": c, "code_bits": len(code)}, f.start // 8
@@ -544,11 +557,7 @@ def gen_fault(rng, fmap, kind, data_len):
             code = exp_golomb(v - 1) + rng.choice("01")
             if len(code) > room:
                 return None
-        bits = code + "1" * (room - len(code))
-        ops = []
-        pos = f.start
-        # setbits handles arbitrary widths (big-int masking)
-        ops.append({"k": "setbits", "bit": pos, "n": len(bits), "val": int(bits, 2), "field": f.name})
+        ops = [{"k": "putbits", "bit": f.start, "bits01": code, "ones": room - len(code), "field": f.name}]
         return {"k": "seq", "ops": ops, "value_bits": v.bit_length()}, f.start // 8
     if kind == "f_offsets":
         us = [u for u in fmap.units if u["code"] is not None]
